@@ -285,7 +285,7 @@ CHECKS["C15"] = dict(
          "runs with every operator type and mixtures, adaptation on/off: each record replayed through the Coq step function (target "
          "re-evaluated on a freshly built model), logger rows compared with the state, bit-identity after rejection on the implementation.",
     note="Trusted: Coq kernel; hand-written M_mcmc.v; T3 translator; torch RNG, Dirichlet sampler, Cholesky/solve kernels are oracles; "
-         "Gaussian block proposal density of the GMRF operator: Hastings checked numerically on the implementation, not proved; dual "
+         "Gaussian block proposal of the GMRF operator: Hastings ratio proved (hastings_gaussian_block, proof/P_block_gauss.v), the Cholesky/solve kernels that produce the factor are oracles; dual "
          "averaging: partial. " + AX_R,
     design="§6 C15")
 
